@@ -53,6 +53,10 @@ RULES = {
     # a marker nested inside an `arrange` argument is left grey by the documentation: not generated
     "marker_nested": (("TypeError",), ("mutate",)),
     "rename_hidden_ref": (("ColumnNotFoundError", "ValueError"), ("rename",)),
+    # an aggregate below an explicit partition_by= does not aggregate the summarize's groups
+    "summarize_agg_partition_by": (("FunctionTypeError",), ("summarize",)),
+    # a SHARED aggregate expression object inside `on` (the object is used again by later steps)
+    "agg_in_on_pooled": (("FunctionTypeError",), ("join_on",)),
 }
 
 NESTS = ("top", "arith", "case_branch", "case_cond", "ctx_kwarg")
@@ -95,6 +99,13 @@ def gen_reject(g):
             if not cands:
                 continue
             st["ref"] = rng.choice(cands)
+        if rule == "agg_in_on_pooled":
+            from sim import exprs as X
+
+            cands = [e for e, rec in m.expr_recs.items() if X.expr_ftype(rec, m.expr_recs) == "agg" and rec.get("e") == "agg" and all("r" in a for a in X.refargs_of(rec, m.expr_recs))]
+            if not cands:
+                continue
+            st["x"] = rng.choice(cands)
         if verb in ("join", "join_on", "union"):
             def overlap(p):
                 return bool((p.m.origins & pt.m.origins) or (set(p.m.scope) & set(pt.m.scope)))
@@ -179,6 +190,19 @@ class RejectsMixin:
             return "no int column"
         if rule == "type_sum_str" and step.get("str") is None:
             return "no str column"
+        if rule == "summarize_agg_partition_by":
+            if step.get("int") is None or step.get("int2") is None or step["int"] == step["int2"]:
+                return "need two int columns"
+            if m.tok_of_name(step["int"]) in m.grouping:
+                return "is grouping col"
+        if rule == "agg_in_on_pooled":
+            from sim import exprs as X
+
+            if step.get("x") not in self.exprs or other is None or step.get("int") is None:
+                return "no pooled aggregate"
+            toks = [self.ref_toks.get(a["r"]) for a in X.refargs_of(self.expr_recs[step["x"]], self.expr_recs)]
+            if not all(t is not None and (t in m.scope or t in other.m.scope) for t in toks):
+                return "pooled aggregate not in scope of the join inputs"
         if rule == "summarize_plain_col":
             tok = m.tok_of_name(step["int"])
             if tok in m.grouping:
@@ -205,7 +229,7 @@ class RejectsMixin:
         if rule == "union_columns":
             if other is None or set(other.m.names()) == set(m.names()) or m.grouping or other.m.grouping:
                 return "same columns"
-        if rule in ("join_suffix_collision", "full_join_ineq", "window_in_on", "foreign_ref_on", "unknown_on_name") or (
+        if rule in ("join_suffix_collision", "full_join_ineq", "window_in_on", "foreign_ref_on", "unknown_on_name", "agg_in_on_pooled") or (
             step["verb"] == "join_on"
         ):
             if other is None or m.grouping or other.m.grouping:
@@ -328,6 +352,15 @@ class RejectsMixin:
             return place(c_int.shift(1, arrange=own_int).shift(1, arrange=own_int) if step["nest"] == "top" else (c_int.shift(1, arrange=own_int) + 1).cum_sum(arrange=own_int))
         if rule == "summarize_plain_col":
             return t >> pdt.summarize(**{new: nested(c_int)})
+        if rule == "summarize_agg_partition_by":
+            bad = c_int.sum(partition_by=c_int2)
+            return t >> pdt.summarize(**{new: bad if step["nest"] in ("top", "ctx_kwarg") else nested(bad)})
+        if rule == "agg_in_on_pooled":
+            e = self.exprs[step["x"]].get(rep)
+            if e is None:
+                raise Skip("expression not on this replica")
+            step["_uses_pool"] = True
+            return t >> pdt.join(o, own_int == e, "inner")
         if rule == "unknown_C":
             bad = pdt.C.nope__
             if verb in ("mutate", "filter", "summarize"):
